@@ -96,3 +96,14 @@ try:
     print("D16e (agg): no panic:", r.rows())
 except BaseException as e:  # noqa: BLE001  (pyo3 PanicException)
     print("D16e (agg):", type(e).__name__, str(e)[:80])
+
+
+# D24: shift(fill_value=<wider literal>) - the lazy schema keeps the narrow type, the data is widened; later operators panic
+df = pl.DataFrame({"i32": [5, -4]}, schema={"i32": pl.Int32})
+lf = df.lazy().with_columns(q=pl.col("i32").shift(1, fill_value=pl.lit(-3, dtype=pl.Int64)))
+print("D24: lazy schema:", lf.collect_schema()["q"], "data:", lf.collect().schema["q"])
+try:
+    lf.with_columns(z=pl.col("q") // pl.col("i32")).collect()
+    print("D24: no panic")
+except BaseException as e:  # noqa: BLE001
+    print("D24:", type(e).__name__, str(e)[:80])
